@@ -525,6 +525,72 @@ def run(chk):
             chk.fail("stale-after-extension:" + name, f"{name}: used in a computation, then extended through its add_* methods: the next computation differs from the one "
                      f"with a freshly built equal object by {np.abs(second - want2).max():.2e}", info)
 
+    # ---- (b4'') a ChainControl holding several operations for one site at one step (before and after the measurement), used in
+    # two computations and asked directly twice: composing the operations of a step must not write into the stored ones ----------
+    for variant in ("pre", "post", "both"):
+        info = {"reused": "ChainControl", "same_site_same_step": variant}
+        chk.search_cases += 1
+        chk.count("reused_chain_control")
+        chk.case(info, ("reused-cc", variant))
+        K1, K2 = np.kron(SX, SX.conj()) + 0j, np.kron(SY, SY.conj()) + 0j
+        K3 = np.kron(O, np.eye(2)) * 0.3 + np.eye(4)
+
+        def build_cc():
+            cc_ = oqupy.ChainControl([2, 2])
+            if variant in ("pre", "both"):
+                cc_.add_single_site_control(K1.copy(), 0, 1)
+                cc_.add_single_site_control(K3.copy(), 0, 1)
+                cc_.add_single_site_control(K2.copy(), 0, 1)
+            if variant in ("post", "both"):
+                cc_.add_single_site_control(K3.copy(), 1, 1, True)
+                cc_.add_single_site_control(K1.copy(), 1, 1, True)
+            cc_.add_single_site_control(K2.copy(), 1, 0)
+            return cc_
+
+        def use_cc(cc_):
+            chain_ = oqupy.SystemChain([2, 2])
+            chain_.add_site_hamiltonian(0, H)
+            chain_.add_nn_hamiltonian(0, SX, SZ)
+            p_ = oqupy.PtTebd(oqupy.AugmentedMPS([rho, rho.conj()]), chain_, [None, None], oqupy.PtTebdParameters(dt=0.1, order=2, epsrel=1e-8),
+                              dynamics_sites=[0, 1], chain_control=cc_)
+            r_ = p_.compute(3, progress_type="silent")
+            return np.array(r_["dynamics"][0].states + r_["dynamics"][1].states)
+
+        def ask(cc_):
+            out = []
+            for st_ in (0, 1):
+                for post_ in (False, True):
+                    g_ = cc_.get_single_site_controls(st_, post_)
+                    out.append(None if g_ is None else [None if x_ is None else np.array(x_, dtype=complex) for x_ in g_])
+            return out
+
+        def same(a_, b_):
+            if (a_ is None) != (b_ is None):
+                return False
+            if a_ is None:
+                return True
+            if isinstance(a_, list):
+                return len(a_) == len(b_) and all(same(x_, y_) for x_, y_ in zip(a_, b_))
+            return np.allclose(a_, b_, rtol=0, atol=1e-12)
+        try:
+            shared = build_cc()
+            q1 = ask(shared)
+            first = quiet(use_cc, shared)
+            q2 = ask(shared)
+            second = quiet(use_cc, shared)
+            q3 = ask(shared)
+            fresh = quiet(use_cc, build_cc())
+            qf = ask(build_cc())
+        except Exception as ex:
+            chk.fail("reuse-raises", f"ChainControl used twice: raises {ex!r}", info)
+            continue
+        if not (same(q1, qf) and same(q2, qf) and same(q3, qf)):
+            chk.fail("reuse-differs:ChainControl", "ChainControl.get_single_site_controls: the same question gives a different answer after the object has been asked / "
+                     "used in a computation (a freshly built equal object gives the first answer)", info)
+        elif not np.allclose(first, fresh, rtol=0, atol=1e-9) or not np.allclose(second, fresh, rtol=0, atol=1e-9):
+            chk.fail("reuse-differs:ChainControl", f"a ChainControl used in a second PT-TEBD computation: the result differs from the first one / from the one with a freshly "
+                     f"built equal object by {max(np.abs(first - fresh).max(), np.abs(second - fresh).max()):.2e}", info)
+
     # ---- (b4') a SystemChain extended after use through EACH of its six add_* methods, one at a time (a term added by one method
     # must not depend on another method being called as well) ----------------------------------------------------------------
     Lsite = -1j * (np.kron(O, np.eye(2)) - np.kron(np.eye(2), O.T))
